@@ -469,6 +469,14 @@ func c04Clocks(c *fw.Ctx) {
 				sc{CmdEnv{Today: day, NowMins: mins}, d(-3) + "\n    1h\n", rel()})
 		}
 	}
+	// an explicit --date without --time: no fallback to the day before; and given summaries that end in blanks
+	for _, init := range []string{"2021-03-09\n    22:00 - ? late\n", "2021-03-09\n    22:00 - ?\n\n2021-03-11\n    1h\n", "2021-03-10\n    8:00 - ?\n"} {
+		scs = append(scs, sc{c04Env, init, []Op{
+			{Kind: "stop", Date: "2021-03-10"}, {Kind: "stop", Date: "2021-03-11"}, {Kind: "stop", Date: "2021-03-09"}, {Kind: "switch", Date: "2021-03-10"},
+			{Kind: "track", Entry: "2h Meeting  "}, {Kind: "track", Entry: "2h Research: \nsecond line \t"}, {Kind: "start", Time: "15:00", HasSum: true, Summary: "ends in blanks  "},
+			{Kind: "stop", Time: "23:30", HasSum: true, Summary: "done "},
+		}})
+	}
 	// a pause over midnight: the target record is the one found when the command started
 	for _, init := range []string{"2021-03-09\n    22:00 - ? late #n\n", "2021-03-10\n    22:00 - ?\n", "2021-03-09\n    1h\n\n2021-03-10\n    23:00 - ? x\n    -2m\n"} {
 		scs = append(scs, sc{CmdEnv{Today: sm.Date{Y: 2021, M: 3, D: 10}, NowMins: 23*60 + 58}, init,
